@@ -27,7 +27,7 @@ def cfgOfSource : Cfg :=
     syncCreate := Generated.catalogSyncsBeforeReference
     freshZero := Generated.pagerReinitsZeroMeta
     walRollback := Generated.walRollsBackFailedCommit
-    leafCap := (Generated.pageSize - Generated.btreeLeafHeader) / (1 + Generated.propKeyLen + 8 + 2) }
+    leafCap := (Generated.crashPageSize - Generated.crashBtreeLeafHeader) / (1 + Generated.propKeyLen + 8 + 2) }
 
 structure Run where
   txid : Nat
